@@ -653,7 +653,13 @@ def _move_items(cc, ctx, res, case, cfg, schema, default):
     fill(other, dict(case["values"], items=[], titems=[]))
     moved = []
     try:
-        if len(cfg.items):
+        if len(cfg.items) and case["r"] % 3 == 2:
+            # the typed list itself is handed over (other.items = cfg.items), not one of its members
+            other.items = cfg.items
+            res.count("typed_lists_handed_over_to_a_second_configuration")
+            moved.append((["items", 0, "s"], case["values"]["items"][0]["s"], os.path.join(d, "donor.key")))
+            moved.append((["items", 0, "sub", "s"], case["values"]["items"][0]["sub"]["s"], os.path.join(d, "donor.key")))
+        elif len(cfg.items):
             it = cfg.items.pop(0) if case["r"] % 2 else cfg.items[0]
             other.items.append(it)
             moved.append((["items", 0, "s"], case["values"]["items"][0]["s"], os.path.join(d, "donor.key")))
